@@ -18,6 +18,8 @@ fn main() {
     let hpath = arg(&args, "--hist").expect("--hist");
     let opath = arg(&args, "--out").expect("--out");
     let extra = args.iter().any(|a| a == "--extra");
+    // --no-probe: the filters file is only used by explicit "queries" ops
+    let probe_all = !args.iter().any(|a| a == "--no-probe");
     let tmp = arg(&args, "--tmp").unwrap_or_else(|| {
         if std::path::Path::new("/dev/shm").is_dir() { "/dev/shm".into() } else { "/tmp".into() }
     });
@@ -55,7 +57,16 @@ fn main() {
         };
         let emit = |out: &mut BufWriter<std::fs::File>, d: &Driver, k: &str, a: i64, res: &str, off: i64, x: Value| {
             let st = d.project();
-            let q = if filters.is_empty() { json!([]) } else { d.probes(&filters) };
+            let q = if k == "queries" {
+                // an explicit batch of queries: filters[a .. x[0]]
+                let to = (x[0].as_i64().unwrap_or(0).max(0) as usize).min(filters.len());
+                let from = (a.max(0) as usize).min(to);
+                d.probes(&filters[from..to])
+            } else if filters.is_empty() || !probe_all {
+                json!([])
+            } else {
+                d.probes(&filters)
+            };
             writeln!(out, "{}", json!({"h": hid, "k": k, "a": a, "res": res, "off": off, "x": x, "st": st, "q": q})).unwrap();
         };
         emit(&mut out, &d, "reset", 0, "ok", -1, json!([-1, "", ""]));
@@ -84,6 +95,10 @@ fn main() {
                         (d.extra_del(a as usize, &vh::unhex(key)), -1)
                     }
                     "nop" => ("ok".to_string(), -1),
+                    "queries" => {
+                        x = json!([op.get("b").and_then(|v| v.as_i64()).unwrap_or(0), "", ""]);
+                        ("ok".to_string(), -1)
+                    }
                     other => panic!("unknown op {}", other),
                 }
             };
